@@ -100,6 +100,11 @@ theorem C06_im0_rst (s : St) (i : Interrupt) (hi : s.Interrupt = some i) (hm : s
     (hb : b = 0xc7#8 ∨ b = 0xcf#8 ∨ b = 0xd7#8 ∨ b = 0xdf#8 ∨ b = 0xe7#8 ∨ b = 0xef#8 ∨ b = 0xf7#8 ∨ b = 0xff#8)
     (hd : i.Data = [b]) : Gen.Step s = Spec.stepKF Impl.koron s := im0_rst s i hi hm hn hf him b hb hd
 
+/-- the same for a supplied CALL nn, every nn (three-byte window) -/
+theorem C06_im0_call (s : St) (i : Interrupt) (hi : s.Interrupt = some i) (hm : s.Memory = .user) (hn : i.Type_ ≠ 0)
+    (hf : s.IFF1 = true) (him : s.IM = 0) (lo hi' : U8) (hd : i.Data = [0xcd#8, lo, hi']) :
+    Gen.Step s = Spec.stepKF Impl.koron s := im0_call s i hi hm hn hf him lo hi' hd
+
 -- EI, DI, RETN, RETI -----------------------------------------------------------------
 
 theorem C06_ei_di (impl : Impl) (s : St) :
